@@ -271,6 +271,25 @@ Proof. unfold h_dbsize. atom. Qed.
 Lemma h_flushdb_atomic d parts r d' : h_flushdb d parts = (r, d') -> is_error r = true -> d' = d.
 Proof. unfold h_flushdb. atom. Qed.
 
+(** MSET validates every pair before storing the first (974d7d6): a refused MSET changes nothing *)
+Lemma mset_loop_ok now : forall (n : nat) args d, (length args <= n)%nat -> mset_valid args = true ->
+  fst (mset_loop now d args) = r_ok.
+Proof.
+  induction n as [|n IH]; intros args d Hl Hv.
+  - destruct args; [reflexivity|cbn in Hl; lia].
+  - destruct args as [|a args]; [reflexivity|]. cbn [mset_valid] in Hv. destruct a; try discriminate.
+    destruct args as [|a2 args]; [discriminate|]. destruct a2; try discriminate.
+    cbn [mset_loop]. apply IH; [cbn [length] in Hl; lia|exact Hv].
+Qed.
+Lemma h_mset_atomic now d parts r d' : h_mset now d parts = (r, d') -> is_error r = true -> d' = d.
+Proof.
+  unfold h_mset. intros H He.
+  destruct ((nparts parts <? 3) || (nparts parts mod 2 =? 0)); [inversion H; reflexivity|].
+  destruct (mset_valid (tl parts)) eqn:V; [|inversion H; reflexivity].
+  pose proof (mset_loop_ok now (length (tl parts)) (tl parts) d (le_n _) V) as Ok.
+  rewrite H in Ok. cbn [fst] in Ok. subst r. discriminate.
+Qed.
+
 Definition is_mset_mget (name : bytes) : bool := beq name (bs "MSET") || beq name (bs "MGET").
 
 Lemma exec_strings_atomic now d name parts r d' :
